@@ -50,9 +50,9 @@ pub struct Case {
     copies: usize,      // 0 single, 1 identical second copy, 2 conflicting copy (origin), 3 conflicting copy (limits only)
 }
 
-const NAMINGS: [&str; 11] = [
+const NAMINGS: [&str; 12] = [
     "jointN", "joint_N", "${prefix}joint_aN", "left_joint_N", "JOINT_N", "${prefix}JOINT_AN", "explicit-one-based", "explicit-zero-based",
-    "kuka_arm_joint_aN", "robot_a_JOINT_AN", "explicit-list-of-left_joint_N",
+    "kuka_arm_joint_aN", "robot_a_JOINT_AN", "explicit-list-of-left_joint_N", "explicit-list-of-${prefix}joint_N",
 ];
 
 fn joint_name(naming: usize, n: usize) -> String {
@@ -69,6 +69,8 @@ fn joint_name(naming: usize, n: usize) -> String {
         9 => format!("robot_a_JOINT_A{n}"),
         // the same decorated raw names as scheme 3, this time handed over as an explicit list
         10 => format!("left_joint_{n}"),
+        // names carrying a xacro argument, listed explicitly exactly as declared
+        11 => format!("${{prefix}}joint_{n}"),
         _ => format!("lf_joint_{}", n - 1),
     }
 }
@@ -245,7 +247,7 @@ pub fn document(c: &Case) -> (String, Option<[String; 6]>, Expect) {
             "<?xml version=\"1.0\"?>\n<robot xmlns:xacro=\"http://wiki.ros.org/xacro\">\n<xacro:macro name=\"cell\" params=\"prefix\">\n<group>\n{body}</group>\n</xacro:macro>\n</robot>\n"
         ),
     };
-    let names = if c.naming == 6 || c.naming == 7 || c.naming == 10 { Some(std::array::from_fn(|i| joint_name(c.naming, i + 1))) } else { None };
+    let names = if c.naming == 6 || c.naming == 7 || c.naming == 10 || c.naming == 11 { Some(std::array::from_fn(|i| joint_name(c.naming, i + 1))) } else { None };
     (wrapped, names, expect)
 }
 
@@ -487,7 +489,7 @@ pub fn run(ctx: &Ctx) -> Report {
     });
     rep.traces_validated = rep.transitions;
     rep.rule = format!(
-        "generated descriptions: 9 parameter records (incl. exact relations between parameters of one origin) x layouts {{c2 on z|x}} x {{c3 on joint 5|4}} x {{wrist along z|x}} x 11 naming schemes (incl. decorated, a literal prefix sharing the decoration letter, the same decorated names once resolved automatically and once listed explicitly, \
+        "generated descriptions: 9 parameter records (incl. exact relations between parameters of one origin) x layouts {{c2 on z|x}} x {{c3 on joint 5|4}} x {{wrist along z|x}} x 12 naming schemes (incl. decorated, names with a xacro argument listed explicitly as declared, a literal prefix sharing the decoration letter, the same decorated names once resolved automatically and once listed explicitly, \
          upper-case, explicit one-/zero-based lists) x nesting {{flat, xacro:macro, two levels}} x {n_order} joint-order permutations, with sign pattern (64), axis \
          syntax, limit syntax (6 uniform + 3 mixed per joint: even joints only, all but J6, J1/J4 absent with J3 unreadable) and single/identical/conflicting (origin; limits only) copy rotating along the permutation axis; oracle: parameters equal the printed decimals, \
          signs, limits, solver constraints follow arc membership (no <limit> => unconstrained), conflicting copy => Err; error paths: each joint missing, \
